@@ -123,9 +123,55 @@ def check_unwritten(inp):
         shutil.rmtree(d, ignore_errors=True)
 
 
+DECL_C_LIB = """library: dclc
+language: c
+c_header: dclc.h
+options:
+  wrap_python: false
+  wrap_lua: false
+%s
+declarations:
+- decl: int add(int a, int b)
+  splicer:
+    c:
+    - // USERLINE_add_c
+    - return a + b + 1;
+- decl: void noop(void)
+- decl: double half(double x)
+  splicer:
+    c:
+    - // USERLINE_half_c
+"""
+
+
+def check_decl_c(inp):
+    """a C library whose functions need no wrapper code of their own: the splicer given on a declaration is user code
+    for the C wrapper of that declaration, so the wrapper (and its block) is written and holds the text"""
+    d = tempfile.mkdtemp(prefix="mspl_")
+    try:
+        try:
+            out = run(DECL_C_LIB % inp.get("options", ""), d)
+        except Exception:
+            return None
+        found = user_lines(out)
+        for uniq, tag in (("// USERLINE_add_c", "function.add"), ("// USERLINE_half_c", "function.half")):
+            got = found.get(uniq, [])
+            if not got:
+                return "the c splicer given on the declaration of %s (language: c%s) is in no generated file: the user's wrapper " \
+                       "body is dropped" % (tag.split(".")[1], ", " + inp["options"].strip() if inp.get("options") else "")
+            bad = [g for g in got if g[1] != tag]
+            if bad:
+                return "the c splicer of %s landed in block %s of %s" % (tag, bad[0][1], bad[0][2])
+        return None
+    finally:
+        shutil.rmtree(d, ignore_errors=True)
+
+
 def check(inp):
     if inp.get("how") == "decl":
         return check_decl(inp)
+    if inp.get("how") == "decl_c":
+        return check_decl_c(inp)
     if inp.get("how") == "unwritten":
         return check_unwritten(inp)
     d = tempfile.mkdtemp(prefix="mspl_")
@@ -432,6 +478,8 @@ def candidates(seed, around=None):
             yield {"yaml": y, "how": how}
     for keys in (["c"], ["f"], ["c", "f"], ["c", "c_buf"], ["c_buf"], ["c", "c_buf", "f"]):
         yield {"how": "decl", "keys": keys}
+    for o in ("", "format:\n  C_prefix: d_\n"):
+        yield {"how": "decl_c", "options": o}
     for y in LIBS:
         for how in ("code", "mixed", "collide", "twofiles", "twofiles-yaml"):
             yield {"yaml": y, "how": how}
